@@ -37,6 +37,9 @@ def cases(tier):
                 if nt == 2 and nm in ('ring4', 'chain4'):
                     continue
                 cs.append({'name': '%s/tgt%d' % (nm, nt), 'n': n, 'edges': g, 'nt': nt})
+        # one anchor whose bonded atoms are 1, 2 and 8 in a 9-atom reference: the two frame neighbours are the two LOWEST
+        # numbered bonded atoms whatever order a container of the bonds is iterated in
+        cs.append({'name': 'star-1-2-8-of-9/tgt1', 'n': 9, 'edges': [(0, 1), (0, 2), (0, 8)], 'nt': 1})
     else:
         from props.C01 import _connected_graphs
         for gi, g in enumerate(_connected_graphs(4)):
@@ -44,6 +47,8 @@ def cases(tier):
                 cs.append({'name': 'g4-%d/tgt%d' % (gi, nt), 'n': 4, 'edges': g, 'nt': nt})
         cs.append({'name': 'chain5/tgt1', 'n': 5, 'edges': [(i, i + 1) for i in range(4)], 'nt': 1})
         cs.append({'name': 'star5/tgt2', 'n': 5, 'edges': [(0, i) for i in range(1, 5)], 'nt': 2})
+        cs.append({'name': 'star-1-2-8-of-9/tgt1', 'n': 9, 'edges': [(0, 1), (0, 2), (0, 8)], 'nt': 1})
+        cs.append({'name': 'star-3-9-10-of-11/tgt1', 'n': 11, 'edges': [(0, 3), (0, 9), (0, 10)], 'nt': 1})
     return cs
 
 
@@ -76,13 +81,16 @@ def run_case(case):
     from symx.core import Ctx as _Ctx
     _Ctx.default_sample_inputs = inputs
     adj = {i: sorted(b if a == i else a for a, b in edges if i in (a, b)) for i in range(n)}
+    big = n > 5
 
     def run(ctx):
         ctx.assume(z3.And(s > 0, s <= 2))
+        rel = [i for i in range(n) if adj[i]] if big else list(range(n))
         for V in (xv, yv):
-            for i in range(n):
-                for j in range(i):
-                    ctx.assume(z3.Or(*[V[i][k] != V[j][k] for k in range(3)]))
+            for i in rel:
+                for j in rel:
+                    if j < i:
+                        ctx.assume(z3.Or(*[V[i][k] != V[j][k] for k in range(3)]))
         anchors_ = [i for i in range(n) if len(adj[i]) >= 2]
         if len(anchors_) >= 3:
             from symx.frames import assume_no_distance_ties
@@ -108,9 +116,10 @@ def run_case(case):
         a0 = eq[0]
         keep = {a0, adj[a0][0], adj[a0][1]}
         V2 = [yv[i] if i in keep else zv[i] for i in range(n)]
-        for i in range(n):
-            for j in range(i):
-                ctx.assume(z3.Or(*[V2[i][k] != V2[j][k] for k in range(3)]))
+        for i in rel:
+            for j in rel:
+                if j < i:
+                    ctx.assume(z3.Or(*[V2[i][k] != V2[j][k] for k in range(3)]))
         out2 = m(mk(V2)).atoms_positions
         return m, eq, framesX, framesY, outY, out2, keep
 
